@@ -5,7 +5,8 @@ import OxyModel.Proofs.Forward.Target
 
 Objects: `Fwd.serve c r : Option Wire` is the request `forward.New(c.passHostHeader)` puts on the wire for the
 incoming request `r` (`none`: the stdlib refuses a non-printable upgrade type and calls the error handler);
-`Fwd.relay b` is the response the client gets for the backend response `b`. Both are the definitions the
+`Fwd.relay b` is the response the client gets for the backend response `b`. `r.formParsed` says whether
+somebody in front of the forwarder parsed the request's form (then the stdlib cleans the outgoing query). Both are the definitions the
 correspondence driver runs. `c.trust = true` and `c.hostname ≠ ""` is what `forward.New` builds
 (`NewHeaderRewriter`).
 
@@ -17,7 +18,7 @@ namespace C08
 open Fwd FwdURL
 
 theorem serve_some {c : Cfg} {r : Req} {w : Wire} (hw : serve c r = some w) :
-    w.target = requestURI (director c r).url ∧ w.proto = outProto ∧
+    w.target = requestURI (formStep r.formParsed (director c r).url) ∧ w.proto = outProto ∧
     w.host = (if (director c r).host ≠ "" then (director c r).host else (director c r).url.host) ∧
     w.backend = ((director c r).url.scheme, (director c r).url.host) ∧
     w.header = wireHeader (outHeader c r) r.method r.bodyLen := by
@@ -34,12 +35,16 @@ theorem director_url (c : Cfg) (r : Req) : (director c r).url = (modifyRequest r
 /-- **C08, request target.** For every valid origin-form target — `path` over RFC 3986 `pchar`s, `/` and
 well-formed `%XY` triples (so escaped slashes and spaces, multi-byte escapes, `;`, `+`, `//`, dot segments),
 optionally `?query` (possibly empty) — the request line sent to the backend carries exactly the bytes the
-client sent: nothing decoded, nothing re-encoded, nothing normalised. (`/a?` relies on commit ef1f4f2.) -/
+client sent: nothing decoded, nothing re-encoded, nothing normalised. (`/a?` relies on commit ef1f4f2.)
+`hform`: nobody in front of the forwarder has parsed the request's form (`req.Form == nil`) — true for every oxy
+middleware; if a caller's own handler calls `ParseForm`/`FormValue` first, `httputil.ReverseProxy` re-encodes a
+query that contains `;` or a malformed escape, see `C08_form_parsed_counterexample`. -/
 theorem C08_target_roundtrip (c : Cfg) (r : Req) (p : Bytes) (q : Option Bytes)
     (hp : validPath p = true) (hq : ∀ q', q = some q' → validQuery q' = true)
-    (hr : r.requestURI = target p q) (w : Wire) (hw : serve c r = some w) :
+    (hr : r.requestURI = target p q) (hform : r.formParsed = false) (w : Wire) (hw : serve c r = some w) :
     w.target = target p q := by
   obtain ⟨ht, -⟩ := serve_some hw
+  simp only [hform, formStep, Bool.false_eq_true, if_false] at ht
   obtain ⟨u, hu, hreq⟩ := requestURI_parse r.url p q hp hq
   have hne : r.requestURI ≠ [] := by
     rw [hr]; simp only [target]
@@ -61,11 +66,12 @@ the Go server uses the authority as `req.Host` (`serverHost`). -/
 theorem C08_target_roundtrip_absolute (c : Cfg) (r : Req) (s a p : Bytes) (q : Option Bytes)
     (hs : validScheme s = true) (ha : simpleAuthority a = true) (hp : p = [] ∨ validPath p = true)
     (hq : ∀ q', q = some q' → validQuery q' = true)
-    (hr : r.requestURI = absTarget s a p q) (w : Wire) (hw : serve c r = some w) :
+    (hr : r.requestURI = absTarget s a p q) (hform : r.formParsed = false) (w : Wire) (hw : serve c r = some w) :
     w.target = target (if p = [] then ['/'] else p) q ∧ w.backend = (r.url.scheme, r.url.host) ∧
     ∃ u, parseRequestURI r.requestURI = some u ∧
       ∀ hostHeader, serverHost u hostHeader = if a ≠ [] then String.ofList a else hostHeader := by
   obtain ⟨ht, -, -, hb, -⟩ := serve_some hw
+  simp only [hform, formStep, Bool.false_eq_true, if_false] at ht
   obtain ⟨u, hu, hh, hreq⟩ := requestURI_parse_abs r.url s a p q hs ha hp hq
   have hne : r.requestURI ≠ [] := by
     rw [hr]
@@ -88,6 +94,17 @@ theorem C08_target_roundtrip_absolute (c : Cfg) (r : Req) (s a p : Bytes) (q : O
         simp only [String.toList_ofList] at this
         exact hae (by simpa using this)
       simp [hae, this]
+
+/-- the hypothesis `formParsed = false` of the two round-trip theorems is needed: with the form parsed upstream
+the stdlib's `cleanQueryParams` drops `b=2;c=3` and `a=%zz` from a query every character of which is valid -/
+theorem C08_form_parsed_counterexample :
+    ∃ (r : Req), r.formParsed = true ∧
+      validPath "/p".toList = true ∧ validQuery "b=2;c=3&a=%zz&z=1".toList = true ∧
+      r.requestURI = target "/p".toList (some "b=2;c=3&a=%zz&z=1".toList) ∧
+      (serve { passHostHeader := false } r).map (·.target) = some "/p?z=1".toList ∧ "/p?z=1".toList ≠ r.requestURI :=
+  ⟨{ requestURI := "/p?b=2;c=3&a=%zz&z=1".toList, url := { scheme := "http", host := "b" }, host := "h",
+     remoteAddr := "1.2.3.4:5", tls := false, header := [], formParsed := true },
+   rfl, by decide +kernel, by decide +kernel, by decide +kernel, by decide +kernel, by decide +kernel⟩
 
 /-! ## protocol, backend, Host -/
 
@@ -196,6 +213,53 @@ theorem C08_end_to_end_preserved (c : Cfg) (r : Req) (w : Wire) (hw : serve c r 
   rw [hh, lookup_wire c r k h4, lookup_removeHopByHop]
   simp only [h1, hn, or_self, if_false]
   rw [director_header, lookup_protect_other _ _ hc, lookup_rewrite_other _ _ _ h3, modifyRequest_header]
+
+/-- **C08, User-Agent** (the one end-to-end header `http.Transport` writes itself): the client's value (the first
+one) reaches the backend unless it is empty or the client names User-Agent in Connection; the proxy never
+invents one. -/
+theorem C08_user_agent (c : Cfg) (r : Req) (w : Wire) (hw : serve c r = some w) :
+    vals w.header "User-Agent" =
+      if get r.header "User-Agent" ≠ "" ∧ "User-Agent" ∉ named r.header then [get r.header "User-Agent"] else [] := by
+  obtain ⟨-, -, -, -, hh⟩ := serve_some hw
+  have hget : get (outHeader c r) "User-Agent" =
+      if "User-Agent" ∈ named r.header then "" else get r.header "User-Agent" := by
+    simp only [outHeader]
+    have e1 : ∀ X : Hdr, get (stUserAgent X) "User-Agent" = get X "User-Agent" := by
+      intro X
+      simp only [stUserAgent]
+      split
+      · next h =>
+        have : X.lookup "User-Agent" = none := by
+          simp only [has, Bool.not_eq_true', Option.isSome_eq_false_iff, Option.isNone_iff_eq_none] at h; exact h
+        rw [get_set]; simp [Fwd.get, vals, this]
+      · rfl
+    rw [e1, get_eq_of_lookup (lookup_appendXFF _ _ "User-Agent" (by decide)),
+      get_eq_of_lookup (lookup_stUpgrade _ _ "User-Agent" (by decide) (by decide)),
+      get_eq_of_lookup (lookup_stTe _ _ "User-Agent" (by decide))]
+    have hl : (removeHopByHop (director c r).header).lookup "User-Agent" =
+        if "User-Agent" ∈ named r.header then none else r.header.lookup "User-Agent" := by
+      rw [lookup_removeHopByHop, named_director]
+      have h1 : "User-Agent" ∉ hopHeaders := by decide
+      have h2 : "User-Agent" ∈ (named r.header).filter (fun k => !XHeaders.contains k) ↔ "User-Agent" ∈ named r.header := by
+        simp only [List.mem_filter]
+        exact ⟨fun h => h.1, fun h => ⟨h, by decide⟩⟩
+      by_cases hn : "User-Agent" ∈ named r.header
+      · rw [if_pos (Or.inr (h2.mpr hn)), if_pos hn]
+      · rw [if_neg (by rw [h2]; simp [h1, hn]), if_neg hn]
+        rw [director_header, lookup_protect_other _ _ (by decide), lookup_rewrite_other _ _ _ (by decide),
+          modifyRequest_header]
+    simp only [Fwd.get, vals, hl]
+    split <;> simp
+  rw [hh]
+  simp only [wireHeader, hget]
+  by_cases hn : "User-Agent" ∈ named r.header
+  · simp only [hn, if_true, ne_eq, not_true_eq_false, if_false, and_false]
+    split <;> simp [vals_set, vals_delAll, transportManaged]
+  · by_cases hg : get r.header "User-Agent" = ""
+    · simp only [hn, if_false, hg, ne_eq, not_true_eq_false, false_and]
+      split <;> simp [vals_set, vals_delAll, transportManaged]
+    · simp only [hn, if_false, hg, ne_eq, not_false_eq_true, if_true, and_self]
+      split <;> simp [vals_set, vals_delAll, transportManaged]
 
 /-! ## hop-by-hop headers, response direction -/
 
